@@ -7,39 +7,42 @@
 (*   "bytes"    deserialize every short byte string over {0,1,2,254,255}                     (C03)  *)
 (* FUELS / DFUELS: injected failure points of the writer / reader (-1 = none)               (C15)  *)
 (* Finished behaviours are printed (EMIT) for replay against the generated code.                   *)
-EXTENDS ProtoSer, ProtoDeser, Json, IOUtils
-CONSTANTS MODE, NFUEL, NDFUEL, EMIT, RICH, MAXBYTES
+EXTENDS ProtoSer, ProtoDeser, ProtoInvalid, ProtoObject, Json, IOUtils
+CONSTANTS MODE, NFUEL, NDFUEL, EMIT, RICH, MAXBYTES, LIGHT, HDEPTH
 \* injected failure points: none (-1), or failing the k-th primitive call for k < NFUEL / NDFUEL
 FUELS == {-1} \cup 0..(NFUEL - 1)
 DFUELS == {-1} \cup 0..(NDFUEL - 1)
-VARIABLES phase, p, san0, fuel0, ch0, dfuel0
+VARIABLES phase, p, san0, fuel0, ch0, dfuel0, inv   \* inv: the injected violation (mode "invalid"), or "None"
 
 Corpus == JsonDeserialize(IOEnv.CORPUS_FILE)
 MCTypes == Corpus.types
 Progs == Corpus.progs
-vars == <<w, stack, status, exc, fuel, result, r, dstack, dstatus, dexc, dfuel, dresult, phase, p, san0, fuel0, ch0, dfuel0>>
+vars == <<w, stack, status, exc, fuel, result, r, dstack, dstatus, dexc, dfuel, dresult, phase, p, san0, fuel0, ch0, dfuel0, inv>>
 meta == <<p, san0, fuel0>>
 
-MCDoms == IF RICH
+TinyDoms == [byte |-> {L(255)}, char |-> {L(1)}, short |-> {L(64008)}, three |-> {L(3)}, int |-> {L(4)}, strs |-> {<<98, 99>>}, alpha |-> {97},
+             counts |-> {0, 2}, blobs |-> {<<7, 1>>}, unrec |-> L(7), strict |-> TRUE]
+MCDoms == IF MODE = "mut" THEN TinyDoms ELSE IF RICH
   THEN [byte |-> {L(0), L(1), L(254), L(255)}, char |-> {L(0), L(1), L(252)}, short |-> {L(0), L(253), L(64008)},
         three |-> {L(0), L(64009), <<247, 6884>>}, int |-> {L(0), <<247, 6885>>, LSub(INT_MAX_L, <<0, 1>>)},
         strs |-> {<<>>, <<97>>, <<255, 126>>, <<256, 98>>}, alpha |-> {97, 255}, counts |-> 0..2,
-        blobs |-> {<<>>, <<0>>, <<255, 1>>}, unrec |-> L(7)]
-  ELSE [byte |-> {L(1), L(200)}, char |-> {L(1), L(252)}, short |-> {L(2), L(64008)}, three |-> {L(3), <<247, 6884>>},
+        blobs |-> {<<>>, <<0>>, <<255, 1>>}, unrec |-> L(7), strict |-> FALSE]
+  ELSE [byte |-> {L(1), L(255)}, char |-> {L(1), L(252)}, short |-> {L(2), L(64008)}, three |-> {L(3), <<247, 6884>>},
         int |-> {L(4), LSub(INT_MAX_L, <<0, 1>>)}, strs |-> {<<97>>, <<98, 99>>}, alpha |-> {97, 98}, counts |-> 1..2,
-        blobs |-> {<<1>>, <<7, 1>>}, unrec |-> L(7)]
+        blobs |-> {<<1>>, <<7, 1>>}, unrec |-> L(7), strict |-> TRUE]
 
 Idle == [r |-> [data |-> <<>>, pos |-> 0, chunked |-> FALSE, cs |-> 0], dstack |-> <<>>, dstatus |-> "idle", dexc |-> "", dfuel |-> -1, dresult |-> NoneV]
 SetDeser(s) == r' = s.r /\ dstack' = s.dstack /\ dstatus' = s.dstatus /\ dexc' = s.dexc /\ dfuel' = s.dfuel /\ dresult' = s.dresult
 ByteStrings(n) == UNION {[1..k -> {0, 1, 2, 254, 255}] : k \in 0..n}
 
 Init ==
-  /\ p \in 1..Len(Progs) /\ fuel0 \in FUELS
+  /\ inv = [what |-> "", stray |-> FALSE]
+  /\ p \in {i \in 1..Len(Progs) : MODE # "rt" \/ Progs[i].rt} /\ fuel0 \in FUELS
   /\ IF MODE = "bytes"
      THEN /\ phase = "de" /\ san0 = FALSE /\ ch0 \in BOOLEAN /\ dfuel0 \in DFUELS
           /\ w = [bytes |-> <<>>, san |-> FALSE] /\ stack = <<>> /\ status = "idle" /\ exc = "" /\ fuel = -1 /\ result = NoneV
           /\ \E data \in ByteStrings(MAXBYTES) : DInit(data, Progs[p].code, Progs[p].name, ch0, dfuel0)
-     ELSE /\ phase = "ser" /\ san0 \in BOOLEAN /\ ch0 = FALSE /\ dfuel0 = -1
+     ELSE /\ phase = "ser" /\ san0 \in (IF MODE \in {"invalid", "mut"} THEN {FALSE} ELSE BOOLEAN) /\ ch0 = FALSE /\ dfuel0 = -1
           /\ SInit(Progs[p].code, Progs[p].name, Free, san0, fuel0)
           /\ r = Idle.r /\ dstack = Idle.dstack /\ dstatus = Idle.dstatus /\ dexc = Idle.dexc /\ dfuel = Idle.dfuel /\ dresult = Idle.dresult
 
@@ -47,25 +50,45 @@ Subst(s, i, b) == [s EXCEPT ![i] = b]
 Insert(s, i, b) == SubSeq(s, 1, i - 1) \o <<b>> \o SubSeq(s, i, Len(s))
 Corruptions(s) ==
   IF MODE = "rt" THEN {s}
+  ELSE IF LIGHT THEN {s} \cup {SubSeq(s, 1, k) : k \in 0..(Len(s) - 1)} \cup {Subst(s, i, b) : i \in 1..Len(s), b \in {0, 255}}
+                     \cup {Insert(s, i, 254) : i \in 1..(Len(s) + 1)} \cup {s \o <<1, 255, 1>>}
   ELSE {s} \cup {SubSeq(s, 1, k) : k \in 0..(Len(s) - 1)}
        \cup {Subst(s, i, b) : i \in 1..Len(s), b \in {0, 1, 254, 255}}
        \cup {Insert(s, i, b) : i \in 1..(Len(s) + 1), b \in {0, 254, 255}}
        \cup {s \o j : j \in {<<0>>, <<255>>, <<254, 254>>, <<1, 255, 1>>}}
 
-serIdle == <<r, dstack, dstatus, dexc, dfuel, dresult, phase, p, san0, fuel0, ch0, dfuel0>>
-SerStep == phase = "ser" /\ Step /\ UNCHANGED serIdle
-SerReturn == phase = "ser" /\ Return /\ UNCHANGED serIdle
-SerUnwind == phase = "ser" /\ Unwind /\ UNCHANGED serIdle
+serIdle == <<r, dstack, dstatus, dexc, dfuel, dresult, phase, p, san0, fuel0, ch0, dfuel0, inv>>
+SerStep == phase \in {"ser", "ser2"} /\ Step /\ UNCHANGED serIdle
+SerReturn == phase \in {"ser", "ser2"} /\ Return /\ UNCHANGED serIdle
+SerUnwind == phase \in {"ser", "ser2"} /\ Unwind /\ UNCHANGED serIdle
+\* mode "mut": a history of attempted mutations of the finished instance; the instance (result) and its bytes (w.bytes) never change
+ToMut == /\ phase = "ser" /\ status = "done" /\ exc = "" /\ MODE = "mut" /\ phase' = "mut" /\ inv' = [hist |-> <<>>]
+         /\ UNCHANGED <<w, stack, status, exc, fuel, result, r, dstack, dstatus, dexc, dfuel, dresult, p, san0, fuel0, ch0, dfuel0>>
+MutStep == /\ phase = "mut" /\ Len(inv.hist) < HDEPTH
+           /\ LET ts == Targets(Progs[p].code, result, <<>>) \o <<Act("serialize", <<>>, "", "")>>
+               IN  \E k \in 1..Len(ts) : inv' = [hist |-> Append(inv.hist, [act |-> ts[k], outcome |-> Outcome(ts[k])])]
+           /\ UNCHANGED <<w, stack, status, exc, fuel, result, r, dstack, dstatus, dexc, dfuel, dresult, phase, p, san0, fuel0, ch0, dfuel0>>
+\* mode "invalid": the valid object just serialized is violated in one place and serialized again
+ToInvalid == /\ phase = "ser" /\ status = "done" /\ exc = "" /\ MODE = "invalid"
+             /\ LET ms == Mutations(Progs[p].code, Progs[p].name, result)
+                 IN  \E k \in 1..Len(ms) :
+                       /\ inv' = [what |-> ms[k].what, stray |-> ms[k].stray]
+                       /\ w' = [bytes |-> <<>>, san |-> san0]
+                       /\ stack' = <<[code |-> Progs[p].code, saved |-> san0, start |-> 0, obj |-> [_t |-> Progs[p].name], given |-> Given(ms[k].obj),
+                                      inch |-> FALSE, missing |-> FALSE, lens |-> [x \in {} |-> 0], dest |-> [k |-> "root"], cls |-> Progs[p].name]>>
+                       /\ status' = "running" /\ exc' = "" /\ fuel' = -1 /\ result' = ms[k].obj
+             /\ phase' = "ser2"
+             /\ UNCHANGED <<r, dstack, dstatus, dexc, dfuel, dresult, p, san0, fuel0, ch0, dfuel0>>
 ToDeser == /\ phase = "ser" /\ status = "done" /\ exc = "" /\ MODE \in {"rt", "hostile"}
            /\ phase' = "de"
-           /\ \E data \in Corruptions(w.bytes) : \E c \in (IF MODE = "rt" THEN {FALSE} ELSE BOOLEAN) : \E df \in DFUELS :
+           /\ \E data \in Corruptions(w.bytes) : \E c \in (IF MODE = "rt" \/ LIGHT THEN {FALSE} ELSE BOOLEAN) : \E df \in DFUELS :
                 ch0' = c /\ dfuel0' = df /\ SetDeser(DStartState(data, Progs[p].code, Progs[p].name, c, df))
-           /\ UNCHANGED <<w, stack, status, exc, fuel, result, p, san0, fuel0>>
-deIdle == <<w, stack, status, exc, fuel, result, phase, p, san0, fuel0, ch0, dfuel0>>
+           /\ UNCHANGED <<w, stack, status, exc, fuel, result, p, san0, fuel0, inv>>
+deIdle == <<w, stack, status, exc, fuel, result, phase, p, san0, fuel0, ch0, dfuel0, inv>>
 DeStep == phase = "de" /\ DStep /\ UNCHANGED deIdle
 DeReturn == phase = "de" /\ DReturn /\ UNCHANGED deIdle
 DeUnwind == phase = "de" /\ DUnwind /\ UNCHANGED deIdle
-Next == SerStep \/ SerReturn \/ SerUnwind \/ ToDeser \/ DeStep \/ DeReturn \/ DeUnwind
+Next == SerStep \/ SerReturn \/ SerUnwind \/ ToInvalid \/ ToMut \/ MutStep \/ ToDeser \/ DeStep \/ DeReturn \/ DeUnwind
 Spec == Init /\ [][Next]_vars
 FairSpec == Spec /\ WF_vars(Next)
 
@@ -83,11 +106,20 @@ PRoundTrip == (MODE = "rt" /\ phase = "de" /\ dstatus = "done") =>
                 /\ dexc = ""
                 /\ ToString(dresult) = ToString(result)
                 /\ r.pos = Len(r.data)
+\* C16 on the model: a violated object never yields a complete serialization (data left for a value that selects no case is the
+\* documented exception, see F5)
+PRefused == (phase = "ser2" /\ status = "done" /\ ~inv.stray) => exc \in {"SerializationError", "ValueError"}
 PTerminates == <>(phase = "de" => dstatus \in {"done", "bound"})
 
 SerRec == [kind |-> "ser", prog |-> Progs[p].name, san0 |-> san0, fuel |-> fuel0, exc |-> exc, bytes |-> w.bytes, san_end |-> w.san, obj |-> result]
 DeRec == [kind |-> "de", prog |-> Progs[p].name, data |-> r.data, ch0 |-> ch0, dfuel |-> dfuel0, status |-> dstatus, exc |-> dexc, pos |-> r.pos,
           ch_end |-> r.chunked, obj |-> dresult, src |-> result]
+\* C19 on the model: whatever the history, the instance and its serialization are what they were (action property)
+PImmutable == [][(phase = "mut" /\ phase' = "mut") => (result' = result /\ w' = w)]_vars
+MutRec == [kind |-> "mut", prog |-> Progs[p].name, obj |-> result, bytes |-> w.bytes, hist |-> inv.hist]
+InvRec == [kind |-> "inv", prog |-> Progs[p].name, what |-> inv.what, stray |-> inv.stray, exc |-> exc, obj |-> result]
 Emit == /\ (EMIT /\ phase = "ser" /\ status = "done" /\ (MODE = "ser" \/ exc # "")) => PrintT(ToJson(SerRec))
+        /\ (EMIT /\ phase = "ser2" /\ status = "done") => PrintT(ToJson(InvRec))
+        /\ (EMIT /\ phase = "mut" /\ Len(inv.hist) = HDEPTH) => PrintT(ToJson(MutRec))
         /\ (EMIT /\ phase = "de" /\ dstatus \in {"done", "bound"}) => PrintT(ToJson(DeRec))
 =============================================================================
